@@ -1,12 +1,12 @@
-INIT ObsInitNoDup
+INIT ObsInit
 NEXT Next
 CONSTANTS Configs = {}
   CountBasedCheck = FALSE
   SkipEpochWithoutRow = FALSE
   LoadEveryEngine = FALSE
-  LoadOnlyOwnTargets = TRUE
+  LoadOnlyOwnTargets = FALSE
   CrashOnDuplicate = FALSE
-  KeepDuplicates = FALSE
+  KeepDuplicates = TRUE
   CreateMissingTables = FALSE
 INVARIANT ImportFaithful
 INVARIANT NoStaleState
